@@ -64,7 +64,9 @@ func (vc *VC) term(v Value, pos token.Pos) Term {
 		vc.unsupportedf(pos, "nil value where term expected")
 	case *Closure, *FuncRef:
 		vc.ss.declareFn()
-		return vc.freshOfSort("fn", SFn, nil)
+		f := vc.freshOfSort("fn", SFn, nil)
+		vc.assumes = append(vc.assumes, fmt.Sprintf("(assert (not (= %s fn.nil)))", f.S))
+		return f
 	case Tuple:
 		vc.unsupportedf(pos, "tuple where single value expected")
 	}
